@@ -8,6 +8,7 @@ and leave a structural fingerprint of its argument unchanged.
 """
 import collections
 import json
+import reprlib
 import os
 import subprocess
 import sys
@@ -131,6 +132,27 @@ class OldStyle:
         return 'OldStyle(%s)' % P.pformat(self.x, width=200)
 
 
+class HTcOnce:
+    """its printer supports trailing comments but raises TypeError for instances flagged bad"""
+
+    def __init__(self, bad):
+        self.bad = bad
+
+    def __repr__(self):
+        return 'HTcOnce(%r)' % self.bad
+
+
+class Task:
+    """unregistered; its (recursion-guarded) __repr__ pretty-prints the container it lives in"""
+
+    def __init__(self):
+        self.owner = [self]
+
+    @reprlib.recursive_repr()
+    def __repr__(self):
+        return '<Task in %s>' % P.pformat(self.owner)
+
+
 class HMut:
     """registered printer that reads (only reads) every container it is given"""
 
@@ -246,6 +268,20 @@ def build_corpus():
     add('comment_top_wrapping', 'comment', comment({'a': 'v' * 60}, long_note + ' ' + long_note), dict(width=50))
     add('comment_value_long', 'comment', {'key': comment({'inner': list(range(12))}, long_note)}, dict(width=35))
     add('truncated_then_comment', 'comment', [list(range(30)), comment(1, long_note)], dict(max_seq_len=3, width=40))
+    # a trailing-comment aware printer that fails with its own TypeError once (must not be remembered)
+    add('tc_typeerror_bundled', 'comment', trailing_comment((4, 5), 'c'), dict(max_seq_len=None))
+    add('tc_typeerror_harness', 'comment', trailing_comment(HTcOnce(True), 'bad one'))
+    add('tc_ok_harness', 'comment', trailing_comment(HTcOnce(False), 'good one'))
+    add('tc_list_again', 'comment', trailing_comment([1, 2, 3], 'and more'))
+    add('tc_set_again', 'comment', [trailing_comment({1}, 'a set'), trailing_comment((1, 2), 'a tuple')], dict(width=10))
+    task = Task()
+    add('task_owner', 'reentrant', task.owner, idfree=False)
+    add('task', 'reentrant', {'t': task}, idfree=False)
+    # volume: more distinct values than any small bounded cache holds
+    add('many_floats', 'volume', [i / 7 for i in range(300)], dict(width=60))
+    add('many_strs', 'volume', ['s%03d' % i for i in range(300)], dict(width=60))
+    add('many_comments', 'volume', [comment(i, 'note %d' % i) for i in range(140)])
+    add('many_keys', 'volume', {('k%03d' % i): i for i in range(200)}, dict(width=50))
     add('h_re_sub', 'harness', HReSub(1))
     add('h_re', 'harness', HRe(2))
     add('h_re_both', 'harness', [HReSub(), HRe()])
@@ -351,6 +387,12 @@ def register_harness():
         def evaluator(indent, column, page_width, ribbon_width):
             return 'Reentrant<%s>' % P.pformat(v.inner, width=200).replace('\n', ' ')
         return contextual(evaluator)
+
+    @register_pretty(HTcOnce)
+    def ptc_once(v, ctx, trailing_comment=None):
+        if v.bad:
+            raise TypeError('unsupported operand for this one instance')
+        return pretty_call(ctx, type(v), v.bad, note=trailing_comment or '-')
 
     @register_pretty(HMut)
     def pmut(v, ctx):
